@@ -104,6 +104,10 @@ def setup_state(run, fs, fdef):
                a=NS(run.args0), run=run, lg=run.lg)
     for cname, f in fs.requires.items():
         run.assume(_conj(f(cpre)))
+    # ghost mirrors: writes to a real list field are mirrored into a ghost list (e.g. arrival ids)
+    for real, (ghost, valf) in fs.mirrors.items():
+        if selfv is not None and selfv.getfield(real) is not None and selfv.getfield(ghost) is not None:
+            selfv.getfield(real).mirror = (selfv.getfield(ghost), _term(valf(cpre)))
     return cpre
 
 
@@ -158,6 +162,10 @@ def normal_exit(run, fs, res, rep):
         # coerce to the declared types
         for f, t in sp.fields_all_real().items():
             cur = selfv.getfield(f)
+            if cur is None:
+                # optional field of a union record that this class does not have: unconstrained
+                selfv.setfield(f, run.fresh(t, 'absent_' + f))
+                continue
             try:
                 tt = pack(cur, t) if not (isinstance(cur, SObj) and cur.fields is not None) else None
                 if tt is not None and tt.sort() != t.sort():
